@@ -70,6 +70,17 @@ func (t Templates) ServeHTTP(w http.ResponseWriter, r *http.Request) (int, error
 		// pass request up the chain to let another middleware provide us the template
 		code, err := t.Next.ServeHTTP(rb, r)
 		if !rb.Buffered() || code >= 300 || err != nil {
+			if rb.Buffered() && code == 0 {
+				// The next handler reports that it has written the response
+				// (status 0), but what it wrote is sitting in our buffer.
+				// We are not going to render it, so pass it on as it is
+				// instead of dropping it.
+				rb.CopyHeader()
+				rb.StatusCodeWriter(w).WriteHeader(0) // writes the buffered status
+				if _, werr := w.Write(buf.Bytes()); werr != nil && err == nil {
+					err = werr
+				}
+			}
 			return code, err
 		}
 
